@@ -40,6 +40,8 @@ func (q Req) String() string {
 const (
 	NsAbsentBelow = -1
 	NsAbsentAbove = -2
+	// NsTx is the reserved transaction namespace (valid for data requests, absent from the test squares)
+	NsTx = -3
 	// NsAbsentBetweenBase-k is AbsentBetween(k)
 	NsAbsentBetweenBase = -100
 )
@@ -53,6 +55,8 @@ func NsOf(k int) libshare.Namespace {
 		return AbsentBelow()
 	case k == NsAbsentAbove:
 		return AbsentAbove()
+	case k == NsTx:
+		return libshare.TxNamespace
 	default:
 		return AbsentBetween(NsAbsentBetweenBase - k)
 	}
